@@ -1356,11 +1356,11 @@ Proof. intros H Hr. apply (resp_last_same tr t [] (EvCli n args)) in Hr. congrue
 
 (** C1: the client announces retire(p): the effective content of its array grows *)
 Lemma inv_emit_retire c g a tr t r p :
-  Inv c g a tr -> v_rec (view a t) = Some r -> (forall cl, In cl (v_cl (view a t)) -> crec cl <> r) ->
+  Inv c g a tr -> v_rec (view a t) = Some r -> v_scan (view a t) = None -> (forall cl, In cl (v_cl (view a t)) -> crec cl <> r) ->
   Inv c g (set_claims a t (ClPush r p :: v_cl (view a t)) (set_eff (a_eff a) r (Some (r_ret (get_rec g r) ++ [p]))))
       (tr ++ Conc.tag t [EvCli "retire" [p]]).
 Proof.
-  intros HI Hrec Hno.
+  intros HI Hrec Hns Hno.
   assert (Hown : owns (view a t) r) by (left; exact Hrec).
   assert (Hlt := owns_lt _ _ _ _ _ _ HI Hown).
   assert (Hnone := eff_none _ _ _ _ _ _ HI Hown Hno).
@@ -1378,6 +1378,11 @@ Proof.
       rewrite !cnt_tag1. cbn. rewrite countZ_snoc. destruct (Z.eqb p q); lia.
   - apply safe_cl_nodispose; [exact (i_safe _ _ _ _ HI)|]. intros e q [<-|[]]. discriminate.
   - intros Hr. exfalso. revert Hr. apply not_resp_last_cli. reflexivity.
+  - intros q Hq. rewrite effc_set_claims_same in Hq. apply in_app_or in Hq. destruct Hq as [Hq|[<-|[]]].
+    + left. unfold effc. now rewrite Hnone.
+    + right. split; [exact Hns|]. exists (List.length tr), t. split; [rewrite app_length; cbn; lia|].
+      rewrite nth_error_app2 by lia. now rewrite Nat.sub_diag.
+  - apply pre_cl_nodispose; [exact (i_pre _ _ _ _ HI)|]. intros e q [<-|[]]. discriminate.
 Qed.
 
 (** C2a: current_.load() of an owned array on which the thread holds no claim *)
@@ -1403,6 +1408,8 @@ Proof.
     + intros q. rewrite effc_set_claims_same. unfold effc. rewrite Hnone. cbn. fold l. lia.
   - apply safe_cl_quiet; [exact (i_safe _ _ _ _ HI)|]. apply acc_quiet.
   - intros Hr. exfalso. revert Hr. apply not_resp_after_acc. discriminate.
+  - intros q Hq. rewrite effc_set_claims_same in Hq. left. unfold effc. now rewrite Hnone.
+  - apply pre_cl_nodispose; [exact (i_pre _ _ _ _ HI)|]. intros e q [<-|[]]. discriminate.
 Qed.
 
 (** C2b: the load inside retired_array::push after the retire was announced *)
@@ -1431,6 +1438,8 @@ Proof.
     + intros q. rewrite effc_set_claims_same. unfold effc. rewrite Hok. cbn. fold l. lia.
   - apply safe_cl_quiet; [exact (i_safe _ _ _ _ HI)|]. apply acc_quiet.
   - intros Hr. exfalso. revert Hr. apply not_resp_after_acc. discriminate.
+  - intros q Hq. rewrite effc_set_claims_same in Hq. left. unfold effc. now rewrite Hok.
+  - apply pre_cl_nodispose; [exact (i_pre _ _ _ _ HI)|]. intros e q [<-|[]]. discriminate.
 Qed.
 
 (** C3/C4: the store (or exchange) of current_ that makes the effective content actual *)
@@ -1468,6 +1477,8 @@ Proof.
     + intros q. rewrite effc_set_claims_same. rewrite H5. unfold effc. rewrite Heff. cbn. lia.
   - apply safe_cl_quiet; [exact (i_safe _ _ _ _ HI)|]. apply acc_quiet.
   - intros Hr. exfalso. revert Hr. apply not_resp_after_acc. exact Hk.
+  - intros q Hq. rewrite effc_set_claims_same, H5 in Hq. left. unfold effc. now rewrite Heff.
+  - apply pre_cl_nodispose; [exact (i_pre _ _ _ _ HI)|]. intros e0 q [<-|[]]. discriminate.
 Qed.
 
 (** C5: push past the capacity: the announced entry is dropped *)
@@ -1505,6 +1516,8 @@ Proof.
       rewrite !cnt_tag1. cbn. rewrite countZ_snoc. destruct (Z.eqb p q); lia.
   - apply safe_cl_nodispose; [exact (i_safe _ _ _ _ HI)|]. intros e q [<-|[]]. discriminate.
   - intros Hr. exfalso. revert Hr. apply not_resp_last_cli. reflexivity.
+  - intros q Hq. rewrite effc_set_claims_same in Hq. left. unfold effc. rewrite Heff. apply in_or_app. now left.
+  - apply pre_cl_nodispose; [exact (i_pre _ _ _ _ HI)|]. intros e q [<-|[]]. discriminate.
 Qed.
 
 (** ** 9. scan markers *)
@@ -1588,6 +1601,11 @@ Proof.
     assert (e = EvCli "g_scan_begin" [zn r]).
     { unfold sb_evs in He. destruct es' as [|x [|y l]]; cbn in He; inversion He; auto. destruct l; discriminate. }
     subst e. discriminate.
+  - apply (retd_cl_ext g a tr _ i_retd).
+  - intros t' sv r' s H1 H2 H3 p Hp. destruct (Nat.eq_dec t' t) as [->|Hne]; [congruence|].
+    rewrite last_sb_app_other in H3 by (intros te Hin; eapply is_sb_tag_other; [|exact Hin]; congruence).
+    apply retired_before_ext. eapply i_retd_scan; eauto.
+  - apply pre_cl_nodispose; [exact i_pre|]. intros e p [<-|[<-|[]]]; discriminate.
 Qed.
 
 Definition with_scan (v : lview) (o : option scanv) : lview := mkV (v_rec v) (v_held v) (v_clr v) o (v_cl v) (v_seen v).
@@ -1648,6 +1666,9 @@ Proof.
     rewrite Nat.add_0_r. apply seen_in_ext; [lia|]. apply Hsn. now apply Hincl.
   - intros t' H. destruct (Nat.eq_dec t' t) as [->|Hne]; [contradiction|].
     apply i_idle. apply (resp_last_other tr t' t [ev_scan_end r kept]); [congruence|exact H].
+  - apply (retd_cl_ext g a tr _ i_retd).
+  - apply (retd_scan_cl_ext g a tr t _ i_retd_scan). exact Hnosb.
+  - apply pre_cl_nodispose; [exact i_pre|]. intros e p [<-|[]]; discriminate.
 Qed.
 
 Lemma inv_scan_end c g a tr t r kept sv :
@@ -1676,10 +1697,11 @@ Lemma inv_emit_dispose c g a tr t r l freed kept rest :
   Inv c g a tr -> v_cl (view a t) = ClAct r l l :: rest ->
   (forall p, countZ p l = (countZ p freed + countZ p kept)%Z) ->
   safe_cl c (tr ++ Conc.tag t (map ev_dispose freed)) ->
+  pre_cl (tr ++ Conc.tag t (map ev_dispose freed)) ->
   Inv c g (set_claims a t (ClAct r l kept :: rest) (set_eff (a_eff a) r (Some kept)))
       (tr ++ Conc.tag t (map ev_dispose freed)).
 Proof.
-  intros HI Hcl Hsplit Hsafe.
+  intros HI Hcl Hsplit Hsafe Hpre.
   assert (Hin : In (ClAct r l l) (v_cl (view a t))) by (rewrite Hcl; now left).
   destruct (i_claim _ _ _ _ HI t _ Hin) as (Hown & Hok). cbn in Hown, Hok. destruct Hok as (Hact & Heff).
   assert (Hlt := owns_lt _ _ _ _ _ _ HI Hown).
@@ -1711,6 +1733,9 @@ Proof.
   - intros Hr. exfalso. destruct freed as [|x freed'] using rev_ind.
     + cbn in Hr. rewrite app_nil_r in Hr. destruct (i_idle _ _ _ _ HI t Hr) as (_ & E). rewrite Hcl in E. discriminate.
     + rewrite map_app in Hr. cbn in Hr. apply (resp_last_same tr t) in Hr. discriminate.
+  - intros q Hq. rewrite effc_set_claims_same in Hq. left. unfold effc. rewrite Heff.
+    apply countZ_pos_In. apply countZ_pos_In in Hq. rewrite (Hsplit q). pose proof (countZ_nonneg q freed). lia.
+  - exact Hpre.
 Qed.
 
 Lemma retire_once_dispose_ext tr t l : retire_once (tr ++ Conc.tag t (map ev_dispose l)) -> retire_once tr.
@@ -1741,16 +1766,34 @@ Proof.
     unfold covered. rewrite Htodo. left. intros [].
 Qed.
 
+(** everything a stage 2 disposes was retired before the scan began *)
+Lemma pre_cl_dispose c g a tr t sv r l e rest freed :
+  Inv c g a tr -> v_scan (view a t) = Some sv -> v_rec (view a t) = Some r ->
+  v_cl (view a t) = ClAct r l e :: rest -> (forall p, In p freed -> In p e) ->
+  pre_cl (tr ++ Conc.tag t (map ev_dispose freed)).
+Proof.
+  intros HI Hsv Hrec Hcl Hsub. apply pre_cl_ext; [exact (i_pre _ _ _ _ HI)|].
+  intros k t' p Hk. apply nth_error_tag in Hk. destruct Hk as (-> & Hk).
+  rewrite nth_error_map in Hk. destruct (nth_error freed k) as [x|] eqn:Ex; [|discriminate]. cbn in Hk.
+  inversion Hk; subst x. apply nth_error_In in Ex.
+  destruct (i_cov _ _ _ _ HI t sv Hsv) as (s & Hs & _). exists s. split.
+  - unfold Conc.tag. rewrite firstn_map. fold (Conc.tag t (firstn k (map ev_dispose freed))).
+    rewrite firstn_map. rewrite last_sb_mild by apply dispose_mild. exact Hs.
+  - apply retired_before_ext. eapply (i_retd_scan _ _ _ _ HI t sv r s Hsv Hrec Hs p).
+    assert (Hin : In (ClAct r l e) (v_cl (view a t))) by (rewrite Hcl; now left).
+    destruct (i_claim _ _ _ _ HI t _ Hin) as (_ & _ & Heff). cbn in Heff. unfold effc. rewrite Heff. now apply Hsub.
+Qed.
+
 (** ** 11. help_scan moves one cell: the load of the destination's current_ (C2d) *)
 Lemma inv_ld_cur_move c g a tr t r h srcl x tl rest :
-  Inv c g a tr -> v_rec (view a t) = Some r -> v_cl (view a t) = ClAct h srcl (x :: tl) :: rest ->
+  Inv c g a tr -> v_rec (view a t) = Some r -> v_scan (view a t) = None -> v_cl (view a t) = ClAct h srcl (x :: tl) :: rest ->
   (forall cl, In cl rest -> crec cl <> r) -> h <> r ->
   let l := r_ret (get_rec g r) in
   Inv c g (set_claims a t (ClAct r l (l ++ [x]) :: ClAct h srcl tl :: rest)
              (set_eff (set_eff (a_eff a) h (Some tl)) r (Some (l ++ [x]))))
       (tr ++ Conc.tag t [EvAcc KLd (obj_cur r) true]).
 Proof.
-  intros HI Hrec Hcl Hrest Hhr l.
+  intros HI Hrec Hns Hcl Hrest Hhr l.
   assert (Hinh : In (ClAct h srcl (x :: tl)) (v_cl (view a t))) by (rewrite Hcl; now left).
   destruct (i_claim _ _ _ _ HI t _ Hinh) as (Hownh & Hokh). cbn in Hownh, Hokh. destruct Hokh as (Hacth & Heffh).
   assert (Hown : owns (view a t) r) by (left; exact Hrec).
@@ -1804,6 +1847,19 @@ Proof.
     rewrite E1, E2, E3, E4. rewrite countZ_snoc. cbn. lia.
   - apply safe_cl_quiet; [exact (i_safe _ _ _ _ HI)|]. apply acc_quiet.
   - intros Hr. exfalso. revert Hr. apply not_resp_after_acc. discriminate.
+  - intros r0 q Ho0 Hq.
+    assert (Hold : forall r1, In q (effc g a r1) ->
+              retired_before (tr ++ Conc.tag t [EvAcc KLd (obj_cur r) true]) (List.length (tr ++ Conc.tag t [EvAcc KLd (obj_cur r) true])) q)
+      by (intros r1 H1; apply (retd_cl_ext g a tr _ (i_retd _ _ _ _ HI) r1 q H1)).
+    destruct (Nat.eq_dec r0 r) as [->|Hn0].
+    + unfold effc in Hq. cbn in Hq. rewrite Er in Hq. apply in_app_or in Hq. destruct Hq as [Hq|[<-|[]]].
+      * apply (Hold r). unfold effc. now rewrite Hnone.
+      * apply (Hold h). unfold effc. rewrite Heffh. now left.
+    + destruct (Nat.eq_dec r0 h) as [->|Hn1].
+      * unfold effc in Hq. cbn in Hq. rewrite Eh in Hq. apply (Hold h). unfold effc. rewrite Heffh. now right.
+      * apply (Hold r0). unfold effc in *. cbn in Hq. now rewrite Eo in Hq by assumption.
+  - intros sv r0 s H1. congruence.
+  - apply pre_cl_nodispose; [exact (i_pre _ _ _ _ HI)|]. intros e q [<-|[]]. discriminate.
 Qed.
 
 (** ** 12. progress of stage 1 *)
